@@ -127,29 +127,51 @@ def run(src, tier, seed):
     elif not badsel:
         res.bad(r, 'bland-selectors-missing', fx.loc(cs), 'Simplex::checkSimplex no longer calls both Bland selectors when the flag is set (found %s)' % goodsel)
 
-    r = res.rule('selectors-take-smallest-id', 'both Bland selectors keep the candidate whose variable id is smaller than the smallest seen so far (comparison `<` against a running minimum that starts at '
-                 'the maximal value and is updated together with the choice)', floor=2)
+    r = res.rule('selectors-take-smallest-id', 'both Bland selectors keep the candidate with the smallest variable id: one iteration of each selection loop is evaluated abstractly with a running '
+                 'minimum of 5 and a candidate id of 3, 5 and 7; afterwards the choice must be the candidate exactly for id 3 and the running minimum must be min(5, id)', floor=2)
+    from boolctor import Interp, Unmodelled, Thrown
     for nm in ('opensmt::Simplex::getBasicVarToFixByBland', 'opensmt::Simplex::findNonBasicForPivotByBland'):
         f = fx.func(nm)
-        mins = {d['n'] for d in fwalk(f) if d.get('k') == 'decl' and d.get('init') is not None and any(is_call(x, 'max') or (x.get('k') == 'ref' and x.get('n') in mins_seed(f)) for x in walk(d['init']))}
-        ok = True
-        nloops = 0
-        for l in (x for x in walk(f['body']) if x.get('k') == 'loop' and not x.get('as')):
-            nloops += 1
-            ids = {d['n'] for d in walk(l['body']) if d.get('k') == 'decl' and d.get('init') is not None and any(is_call(x, 'getVarId') for x in walk(d['init']))}
-            cmps = [x for x in walk(l['body']) if x.get('k') == 'bin' and x.get('op') in ('<', '>', '<=', '>=') and not x.get('as')
-                    and (path_of(x['r']) in mins or path_of(x['l']) in mins)]
-            good = [x for x in cmps if x['op'] == '<' and path_of(x['r']) in mins and (is_call(see_through(x['l']), 'getVarId') or path_of(x['l']) in ids)]
-            updates_min = any(as_assign(x) and path_of(as_assign(x)[0]) in mins for x in walk(l['body']))
-            if not cmps or len(good) != len(cmps) or not updates_min:
-                ok = False
-        if nloops == 0:
-            raise AnalysisBroken('%s: no selection loop' % nm)
-        if ok:
-            res.ok(r, '%s: %d selection loop(s) keep the smaller id' % (nm.split('::')[-1], nloops))
-        else:
-            res.bad(r, 'not-smallest-index:%s' % nm.split('::')[-1], fx.loc(f), '%s no longer keeps the candidate with the smallest variable id (comparison other than `id < running minimum`, or the running '
-                    'minimum is not updated): Bland\'s rule needs the smallest index' % nm)
+        seeds = mins_seed(f)
+        mins = seeds | {d['n'] for d in fwalk(f) if d.get('k') == 'decl' and d.get('init') is not None and 'bool' not in (d.get('ct') or '') and isinstance(see_through(d['init']), dict) and see_through(d['init']).get('k') == 'ref' and see_through(d['init']).get('n') in seeds}
+        rets = {path_of(x['e']) for x in fwalk(f) if x.get('k') == 'ret' and x.get('e') is not None and path_of(x['e'])}
+        loops_ = [x for x in walk(f['body']) if x.get('k') == 'loop' and not x.get('as') and x.get('kind') == 'range']
+        if not loops_ or not rets:
+            raise AnalysisBroken('%s: no selection loop / returned choice found' % nm)
+        n_ok = 0
+        for l in loops_:
+            curv = sorted({x.get('n') for x in walk(l['body']) if x.get('k') == 'ref' and x.get('n') in mins})
+            chov = sorted({path_of(as_assign(x)[0]) for x in walk(l['body']) if as_assign(x) and path_of(as_assign(x)[0]) in rets})
+            if len(curv) != 1 or len(chov) != 1:
+                raise AnalysisBroken('%s: selection loop at line %s: running minimum %s / choice %s not identified' % (nm, l.get('ln'), curv, chov))
+            curv, chov = curv[0], chov[0]
+            problems = []
+            try:
+                for cid in (3, 5, 7):
+                    it = Interp(fx, f, '?', {})
+                    cand = ('cand',)
+                    it.oracle = {'getVarId': lambda i, a, n, cid=cid: cid, 'mem:var': lambda i, a, n: cand, 'mem:coeff': lambda i, a, n: ('coeff',),
+                                 'isPositive': lambda i, a, n: True, 'isModelStrictlyUnderUpperBound': lambda i, a, n: True, 'isModelStrictlyOverLowerBound': lambda i, a, n: True,
+                                 'isNonBasic': lambda i, a, n: True, 'isBasic': lambda i, a, n: True}
+                    it.env = {curv: 5, chov: ('old',), l['var']: cand, 'basicVar': ('basic',), 'Undef': ('undef-ref',)}
+                    try:
+                        it.block(l['body'])
+                    except Thrown:
+                        raise Unmodelled('throws')
+                    want_choice = cand if cid < 5 else ('old',)
+                    if it.env.get(chov) != want_choice:
+                        problems.append('with running minimum 5 and candidate id %d the choice %s' % (cid, 'is not updated' if cid < 5 else 'is replaced'))
+                    if it.env.get(curv) != min(5, cid):
+                        problems.append('with running minimum 5 and candidate id %d the running minimum becomes %s' % (cid, it.env.get(curv)))
+            except Unmodelled as e:
+                raise AnalysisBroken('%s: selection loop at line %s is outside the modelled subset: %s' % (nm, l.get('ln'), e))
+            if problems:
+                res.bad(r, 'not-smallest-index:%s' % nm.split('::')[-1], fx.loc(f, l.get('ln')), '%s, selection loop at line %s: %s: the selector no longer returns the candidate with the smallest '
+                        'variable id, which Bland\'s anti-cycling rule needs' % (nm, l.get('ln'), '; '.join(problems)))
+            else:
+                n_ok += 1
+        if n_ok == len(loops_):
+            res.ok(r, '%s: %d selection loop(s) keep the smallest id' % (nm.split('::')[-1], n_ok))
     return res
 
 
